@@ -22,7 +22,7 @@ import lib_sqlast as L
 AREA = "SqlAst"
 MODULES = ["Arc.SqlAst.Props"]
 THEOREMS = [("Arc.SqlAst.Props", t) for t in [
-    "C16_transform_is_subst", "C16_transform_is_subst_header", "C16_join_kind_preserved",
+    "C16_current_transform_is_subst", "C16_quoted_cte_declaration", "C16_transform_is_subst", "C16_transform_is_subst_header", "C16_join_kind_preserved",
     "C16_comma_join_unrewritten", "C16_read_parquet_in_literal_unrewritten", "C16_header_cte_rewritten",
     "C16_cte_scope_blind", "C16_lateral_newline_rewritten", "C16_fast_path_misses_references", "C16_skip_prefix_unrewritten",
 ]]
@@ -59,6 +59,8 @@ def signature(case, m, fl, o):
     lo = sql.lower()
     if m.get("sig"):
         return m["sig"]
+    if "cte-quoting:decl-quoted:ref-bare" in m["labels"] and not (L.FIXBITS & 128):
+        return "quoted-cte-declaration-bare-reference"
     if "read_parquet" in lo:
         return "read-parquet-text-disables-rewrite"
     if case["hdr"] and not fl["hdr_ctes_ok"]:
@@ -75,6 +77,16 @@ def build_cases(rng, tier):
         for h in hdrs:
             cases.append(L.mk_case(sql, h, allow=["*"], reads=False, ref=True, twice=True))
             meta.append({"src": "unsupported", "sig": sig, "labels": [], "disguises": [], "total_order": False})
+    # CTE declared quoted/bare x referenced quoted/bare x FROM/JOIN x header on/off x same-named measurement or not
+    for sql, hdr, label in L.cte_quoting_matrix():
+        cases.append(L.mk_case(sql, hdr, allow=["*"], reads=False, ref=True, twice=False))
+        meta.append({"src": "grammar", "labels": ["cte", label], "disguises": ["quoted-name"] if "quoted" in label else [], "total_order": False})
+    # request pairs on one handler within the transform-cache TTL: the oracle is evaluated on the SECOND response
+    for label, pre, sql, hdr, allow in L.cache_pairs():
+        if label == "quoted-identifier-case":
+            continue                          # (CPU vs cpu is the identifier-case finding; C14 runs these pairs)
+        cases.append(L.mk_case(sql, hdr, allow=["*"], reads=False, ref=True, pre=pre))
+        meta.append({"src": "grammar", "labels": ["pair:" + label], "disguises": [], "total_order": False})
     for _ in range(n_valid):
         g = L.generate_valid(rng)
         cases.append(L.mk_case(g["sql"], g["hdr"], allow=["*"], reads=False, ref=True, twice=rng.random() < 0.5))
@@ -135,7 +147,8 @@ def run(res, tier, seed):
             continue
         mismatches.append(i)
         sig = signature(c, m, fl, o)
-        supported = m["src"] == "grammar" and fl["in_grammar"] and fl["hdr_ctes_ok"] and fl["slow_path"] and "read_parquet" not in c["sql"].lower()
+        supported = (m["src"] == "grammar" and fl["in_grammar"] and fl["hdr_ctes_ok"] and fl["slow_path"] and "read_parquet" not in c["sql"].lower()
+                     and sig != "quoted-cte-declaration-bare-reference")
         if sig in known and not supported:
             reproduced.setdefault(sig, i)
         else:
@@ -152,6 +165,7 @@ def run(res, tier, seed):
         i = min(wrong or disagreements, key=lambda k: len(cases[k]["sql"]))
         res.violation("model and implementation disagree on the executed text (%d disagreeing cases, %d of them with an answer that differs from DuckDB's)" % (len(disagreements), len(wrong)),
                       {"kind": "correspondence", "correspondence": TIE_NAME, "sql": cases[i]["sql"], "hdr": cases[i]["hdr"], "allow": ["*"],
+                       "preceding_requests_on_the_same_handler": cases[i].get("pre") or [],
                        "impl": {k: outs[i].get(k) for k in ("status", "err", "checked", "executed", "columns", "data")},
                        "duckdb_with_views": {k: outs[i].get(k) for k in ("ref_ok", "ref_err", "ref_columns", "ref_data")}, "data_files": files,
                        "disagreeing_cases": len(disagreements),
@@ -160,6 +174,7 @@ def run(res, tier, seed):
     for i, sig, why in unexplained[:3]:
         res.violation("Arc's answer differs from DuckDB's for the same SQL (%s, class %s): %r hdr=%r" % (why, sig, cases[i]["sql"][:160], cases[i]["hdr"]),
                       {"kind": "oracle", "sql": cases[i]["sql"], "hdr": cases[i]["hdr"], "allow": ["*"], "signature": sig, "difference": why,
+                       "preceding_requests_on_the_same_handler": cases[i].get("pre") or [],
                        "arc": {k: outs[i].get(k) for k in ("status", "err", "columns", "data", "executed")},
                        "duckdb_with_views": {k: outs[i].get(k) for k in ("ref_ok", "ref_err", "ref_columns", "ref_data")},
                        "data_files": files, "how_to_replay": "python3 tools/check.py C16 --replay <this file>"}, suffix="oracle")
@@ -208,10 +223,13 @@ def replay(res, path):
     if "sql" not in obj:
         print("replay file names no concrete input:", obj.get("summary"))
         return 1
-    case = L.mk_case(obj["sql"], obj.get("hdr", ""), allow=["*"], reads=False, ref=True, twice=True)
+    pre = [(p["sql"], p["hdr"], p["allow"]) for p in obj.get("preceding_requests_on_the_same_handler", [])]
+    case = L.mk_case(obj["sql"], obj.get("hdr", ""), allow=["*"], reads=False, ref=True, twice=not pre, pre=pre)
     outs = L.run_cases("C16", [case], "replay", files=obj.get("data_files"), views=L.reference_views())
     cls, flags, _ = L.eval_flags("C16", [case], outs, "Replay")
     ok, why = same_answer(outs[0], False)
+    for p in case["pre"]:
+        print("preceding request on the same handler:", repr(p["sql"]), "| header:", repr(p["hdr"]))
     print("statement:", repr(case["sql"]), "| header:", repr(case["hdr"]))
     print("arc:", {k: outs[0].get(k) for k in ("status", "err", "columns", "row_count", "executed")})
     print("plain DuckDB with views:", {k: outs[0].get(k) for k in ("ref_ok", "ref_err", "ref_columns")})
